@@ -2,7 +2,8 @@
 From Coq Require Import List Bool Arith NArith.
 Import ListNotations.
 Require Import Kinds Automaton PyStr Line Matcher Ast Builder Compiler CompilerSpec Pipeline PipelineFacts PipelineErrors
-               ErrorFacts Stream StreamFacts Delivery DeliveryInst TableFacts Table Dialects BuilderSafe Safety Totality.
+               ErrorFacts Stream StreamFacts Delivery DeliveryInst TableFacts Table Dialects BuilderSafe Safety Totality
+               Stub Linear LinearInst.
 
 (* Parser.parse, for every source text, either error mode, any well-formed matcher: a document, or the
    library's parser errors -- never another exception (no Crash in the model), never a hang (no OutOfFuel) *)
@@ -62,3 +63,27 @@ Print Assumptions C01_envelopes.
 Theorem C01_max_tests : Nat.leb (max_tests Table.table) max_tests_bound = true.
 Proof. exact max_tests_ok. Qed.
 Print Assumptions C01_max_tests.
+
+(* nothing hangs: the number of TokenMatcher.match_* calls of one Parser.parse is at most 20 per physical
+   line (and 20 for the end of file), for every source text, either error mode, whatever the outcome.
+   20 = 12 tests per state + 2 guarded tests x 4 matcher calls per token inside a look-ahead; the bound is
+   amortised (a look-ahead starts with an empty queue: Linear.v), its side-conditions on the regenerated
+   table are decided by vm_compute (LinearInst.linear_cert_ok), those on the dialect table likewise
+   (no keyword is empty or starts with '#', '@' or '|') *)
+Theorem C01_linear : forall stop m b src, wf_ms m ->
+  match parse_source stop m b src with
+  | POk _ _ _ n | PErrs _ _ _ n | PErr1 _ _ _ n => n <= 20 * (length (py_lines src) + 1)
+  | PCrash => True
+  | POutOfFuel => False
+  end.
+Proof. exact source_calls. Qed.
+Print Assumptions C01_linear.
+
+(* the same for the kind-level interpreter, every sequence of line kinds *)
+Theorem C01_linear_kinds : forall stop w, Forall (fun k => k <> KEOF) w ->
+  match Stub.run stop w with
+  | Ok _ c | Raise1 _ c | RaiseC _ c | Crash c => calls c <= 20 * (length w + 1)
+  | OutOfFuel => False
+  end.
+Proof. exact stub_calls. Qed.
+Print Assumptions C01_linear_kinds.
